@@ -480,9 +480,38 @@ static std::vector<char> assemble_kd(const vrt::J &row, bool *enc_same) {
   return std::vector<char>(b.data(), b.data() + b.size());
 }
 
+// integer attribute rows (row.mode = "ia", module IntAttr): a sequentially coded cloud of bitstream 2.2 with one GENERIC attribute of the row's type,
+//   "DRACO" 2 2 | type 0 | method 0 | flags 0 | i32 points | u8 1 decoder | varint 1 attribute: type 4, dt, NC, 0, varint id 0 | u8 1 (integer decoder) |
+//   i8 method [i8 transform] | u8 compressed | symbol block or (u8 nb, nb bytes per value) | [i32 lo, i32 hi under the wrap transform]
+static std::vector<char> assemble_ia(const vrt::J &row) {
+  EncoderBuffer b;
+  b.Encode("DRACO", 5);
+  b.Encode((uint8_t)2); b.Encode((uint8_t)2); b.Encode((uint8_t)0); b.Encode((uint8_t)0); b.Encode((uint16_t)0);
+  const int NC = (int)row["NC"].n, method = (int)row["method"].n, transform = (int)row["transform"].n, nb = (int)row["nb"].n;
+  std::vector<uint32_t> syms;
+  for (auto &x : row["syms"].a) syms.push_back((uint32_t)x.n);
+  b.Encode((int32_t)row["hp"].n);
+  b.Encode((uint8_t)1);
+  EncodeVarint<uint32_t>(1, &b);
+  b.Encode((uint8_t)4); b.Encode((uint8_t)row["dt"].n); b.Encode((uint8_t)NC); b.Encode((uint8_t)0); EncodeVarint<uint32_t>(0, &b);
+  b.Encode((uint8_t)1);
+  b.Encode((int8_t)method);
+  if (method != -2) b.Encode((int8_t)transform);
+  b.Encode((uint8_t)row["compressed"].n);
+  if (row["compressed"].n > 0) {
+    EncodeSymbols(syms.data(), (int)syms.size(), NC, nullptr, &b);
+  } else {
+    b.Encode((uint8_t)nb);
+    for (uint32_t v : syms) { const uint64_t w = v; b.Encode(&w, (size_t)nb); }
+  }
+  if (method != -2 && transform == 1) { b.Encode((int32_t)row["lo"].n); b.Encode((int32_t)row["hi"].n); }
+  return std::vector<char>(b.data(), b.data() + b.size());
+}
+
 static std::vector<char> assemble_eb(const vrt::J &row, int natt) {
   if (row["mode"].s == "seq") return assemble_seq(row, natt);
   if (row["mode"].s == "lkd" || row["mode"].s == "lkq") return assemble_lkd(row);
+  if (row["mode"].s == "ia") return assemble_ia(row);
   EncoderBuffer b;
   b.Encode("DRACO", 5);
   b.Encode((uint8_t)2); b.Encode((uint8_t)2); b.Encode((uint8_t)1); b.Encode((uint8_t)1); b.Encode((uint16_t)0);
@@ -550,9 +579,9 @@ static std::string kd_points(const PointCloud &pc) {
   if (pc.num_attributes() > 0) {
     const PointAttribute *att = pc.attribute(0);
     for (PointIndex p(0); p < std::min<uint32_t>(pc.num_points(), 200); ++p) {
-      uint32_t v[16] = {0};
+      int64_t v[16] = {0};
       const int nc = std::min<int>(16, att->num_components());
-      if (att->mapped_index(p).value() < att->size()) att->ConvertValue<uint32_t>(att->mapped_index(p), nc, v);
+      if (att->mapped_index(p).value() < att->size()) att->ConvertValue<int64_t>(att->mapped_index(p), nc, v);
       if (p.value()) j += ",";
       j += "[";
       for (int c = 0; c < nc; ++c) { if (c) j += ","; j += std::to_string(v[c]); }
@@ -580,7 +609,8 @@ static void probe_eb(const vrt::J &row, long index, EbStats *st) {
   // rows that the oracle skipped are probed once
   for (int natt = 1; natt >= 0; --natt) {
     const bool kd = row["mode"].s == "kd";
-    if (natt == 0 && (row["mode"].s == "lkd" || row["mode"].s == "lkq" || kd)) continue;  // the kd-tree rows have one form only
+    const bool ia = row["mode"].s == "ia";
+    if (natt == 0 && (row["mode"].s == "lkd" || row["mode"].s == "lkq" || kd || ia)) continue;  // the kd-tree rows have one form only
     if (natt == 1 && row["npd"].n > 1000) continue;     // index-width rows: the declared point count is the subject, not 25 MB of attribute storage
     bool enc_same = true;
     const std::vector<char> bytes = kd ? assemble_kd(row, &enc_same) : assemble_eb(row, natt);
@@ -601,7 +631,7 @@ static void probe_eb(const vrt::J &row, long index, EbStats *st) {
     out.begin("EbProbe").i("row", index).s("mode", row["mode"].s.empty() ? "std" : row["mode"].s).i("natt", natt).s("s", row["s"].s).i("nv", row["nv"].n).i("nf", row["nf"].n).i("nss", row["nss"].n)
         .s("pred", pred).s("pk", pred.substr(0, pred.find(':'))).i("pred_np", row["np"].n)
         .arr("pred_faces", row["faces"].ints()).b("ok", d.ok).b("modified", modified).b("bad_alloc", tolerated_bad_alloc)
-        .b("enc_same", enc_same).raw("pts", kd && d.ok ? kd_points(*d.pc) : "[]").raw("pred_pts", kd ? kd_pred(row) : "[]")
+        .b("enc_same", enc_same).raw("pts", (kd || ia) && d.ok ? kd_points(*d.pc) : "[]").raw("pred_pts", kd || ia ? kd_pred(row) : "[]")
         .i("np", d.ok ? (long long)d.pc->num_points() : 0).arr("faces", faces).raw("sv", d.ok ? struct_json(*d.pc, d.is_mesh) : "{\"np\":0,\"nf\":0,\"maxface\":-1,\"atts\":[]}").end();
     fflush(out.f);
   }
